@@ -247,19 +247,32 @@ def static_isinstance(run: Any, ty: T, cn: str) -> bool:
     return False
 
 
+_PRELUDE: dict[str, Any] = {}
+
+
 def sum_fn(run: Any) -> Any:
+    """isum with its lemma library (proved by induction once per process;
+    see pyvc/prelude.py) added to the path as quantified axioms."""
+    from . import prelude
     ex = run.ex
-    if not hasattr(ex, '_isum'):
-        A = z3.ArraySort(z3.IntSort(), z3.IntSort())
-        f = z3.RecFunction('isum', A, z3.IntSort(), z3.IntSort(), z3.IntSort())
-        a = z3.Const('isum_a', A)
-        lo, hi = z3.Ints('isum_lo isum_hi')
-        z3.RecAddDefinition(
-            f, [a, lo, hi],
-            z3.If(hi <= lo, 0, f(a, lo, hi - 1) + z3.Select(a, hi - 1)),
+    if 'isum' not in _PRELUDE:
+        isum, axs, proofs = prelude.axioms()
+        _PRELUDE['proofs'] = proofs
+        _PRELUDE['isum'] = isum
+        _PRELUDE['axioms'] = axs
+    st = run.st
+    if not getattr(st, 'isum_axioms', False):
+        st.isum_axioms = True
+        for name, ax in _PRELUDE['axioms']:
+            st.assume(ax)
+        ex.used_assumed.add(
+            'sum lemmas (nonneg, ext, mono, update, split) proved by '
+            'induction in pyvc/prelude.py: %s' % ', '.join(
+                '%s=%s' % (k, 'ok' if v['ok'] else 'NOT PROVED')
+                for k, v in _PRELUDE['proofs'].items()
+            ),
         )
-        ex._isum = f
-    return ex._isum
+    return _PRELUDE['isum']
 
 
 def do_sum(run: Any, n: ast.Call) -> Any:
@@ -983,6 +996,32 @@ def spec_call(run: Any, name: str, n: ast.Call) -> Any:
     if name == 'allocated':
         v = run.evalv(n.args[0])
         return V(z3.And(v.t >= 0, v.t < st.alloc), TBool)
+    if name == 'lemma_update':
+        # instance of the (proved) update lemma for two concrete sequences
+        a = run.as_list(run.unalias(run.eval(n.args[0])))
+        b = run.as_list(run.unalias(run.eval(n.args[1])))
+        j = run.evalv(n.args[2]).t
+        f = sum_fn(run)
+        aa, ba, hi = ex.list_arr(a), ex.list_arr(b), ex.list_len(a)
+        i = z3.Int(S.fresh_name('lu'))
+        return V(z3.Implies(
+            z3.And(0 <= j, j < hi, ex.list_len(b) == hi, z3.ForAll(
+                [i], z3.Implies(
+                    z3.And(0 <= i, i < hi, i != j),
+                    z3.Select(aa, i) == z3.Select(ba, i),
+                ),
+            )),
+            f(ba, 0, hi) == f(aa, 0, hi) + z3.Select(ba, j)
+            - z3.Select(aa, j),
+        ), TBool)
+    if name == 'lemma_unfold':
+        # D1 instance: isum(xs, 0, hi) == isum(xs, 0, hi-1) + xs[hi-1]
+        from . import prelude
+        a = run.as_list(run.unalias(run.eval(n.args[0])))
+        hi = run.evalv(n.args[1]).t if len(n.args) > 1 else ex.list_len(a)
+        lo = run.evalv(n.args[2]).t if len(n.args) > 2 else z3.IntVal(0)
+        f = sum_fn(run)
+        return V(z3.And(*prelude.defs(f, ex.list_arr(a), lo, hi)), TBool)
     if name == 'isum':
         src = run.as_list(run.unalias(run.eval(n.args[0])))
         lo = run.evalv(n.args[1]).t if len(n.args) > 1 else z3.IntVal(0)
